@@ -562,7 +562,8 @@ impl Disk {
             let ptr = u16::from_le_bytes([index_block[idx],index_block[idx+256]]);
             let mut bytes = 512;
             if *eof + bytes > entry.eof() {
-                bytes = entry.eof() - *eof;
+                // a damaged index can run past the recorded end of file
+                bytes = entry.eof().saturating_sub(*eof);
             }
             if ptr>0 {
                 self.read_block(buf,ptr as usize,0)?;
